@@ -26,6 +26,14 @@ CHECKS = {
    technique=RM + 'dumped parse tables compared cell by cell with a reference table resolved by the documented rule; logged derivations of operator chains compared with the reference and an independent operator-precedence grouping',
    text='Random expression grammars (precedence incl. negative/equal, associativity, explicit [n], prefix/postfix/juxtaposition), dangling-else shapes and generic S/R grammars: every table cell and the grouping of long operator chains must follow the documented resolution.',
    note='reference as C01; R/R grammars excluded (documented undefined); explicit [0] not generated'),
+ 'C06': dict(level='exploration', design='DESIGN.md §6 C06',
+   technique=RM + 'clang ASan+UBSan builds (thorough: g++ ASan+bounds, libFuzzer, valgrind), bounds-monitoring user buffer, cvector hook and a watchdog on hostile byte inputs',
+   text='Conflict-free grammars of many kinds are run on every byte value, whitespace-only, empty, truncated, mutated, random, very long (10^5..10^6 tokens) and deeply nested inputs through three buffer kinds; the standalone matcher runs on matching and non-matching strings. Any sanitizer report, out-of-range access seen by the monitors, exception, abort or hang is a violation.',
+   note='memory safety only on the executions produced; termination as bounded progress under a watchdog; red-zone tools miss intra-object overflow, which the monitors cover for the caller buffer and the cvector stacks'),
+ 'C07': dict(level='exploration', design='DESIGN.md §6 C07',
+   technique=RM + 'the constant evaluators of g++ and clang++ run the real parse path on generated programs (undefined behaviour makes the program ill-formed); results baked into the binary are compared with run-time parses through four buffer kinds and two construction modes',
+   text='For each (grammar, input, options) nine results per compiler must agree: constexpr parse, and run-time parses through cstring_buffer/string_buffer/string_view_buffer/user buffer with the parser built at compile time and at run time; rejected inputs included.',
+   note='only the installed g++ 12 and clang++ 14; D6 (fixed stacks) is a recorded finding'),
  'C08': dict(level='exploration', design='DESIGN.md §6 C08',
    technique=RM + 'results, surviving values, error reports and verbose recovery steps of real parses compared offline with a reference driver implementing the documented recovery algorithm',
    text='Grammars with the error symbol in many positions; inputs with errors inserted at every position; the observed pops, error shift, discarded terms, kept values and failure cases must equal the documented algorithm step by step.',
@@ -42,6 +50,10 @@ CHECKS = {
    technique=RM + 'write_diag_str text parsed back and compared with the reference LR(1) analysis, with the raw table (hook dump) and with verbose traces of real parses',
    text='For grammars of all classes the diagnostics must list exactly the reference states/items/actions and conflict lines (kind, rule, preferred side), agree cell by cell with the raw table, and contain every action a real parse executes.',
    note='reference as C01; known finding D12 (reduce/accept conflicts) is keyed by site'),
+ 'C12': dict(level='exploration', design='DESIGN.md §6 C12',
+   technique=RM + 'predicted vs actually used capacities observed on real constructions (analyzer vs builder, caps vs counts in diagnostics, cvector hook); two-stage user-limit instantiations around the measured need, at run time and in both constant evaluators; cstring_buffer parses vs string_buffer parses',
+   text='Four monitors: pattern automaton size prediction >= use; default table/lexer capacities suffice for generated parsers; user limits below the measured need are rejected and limits at/above it change nothing; fixed parse stacks for cstring_buffer (recorded finding D6).',
+   note='patterns beyond 2048 states not explored at run time; D6 is keyed by site'),
  'C13': dict(level='exploration', design='DESIGN.md §6 C13',
    technique=RM + 'context probes (address, constness, mutation counter, copy/move counters) logged by contextual functors and compared with the reference reduction sequence',
    text='Grammars mixing >= and >>= functors under lvalue, const lvalue, temporary and move-only contexts: the very object, with the supplied constness, must reach exactly the >>= functors in reduction order, uncopied; parse == context_parse when the context is ignored.',
@@ -50,10 +62,18 @@ CHECKS = {
    technique=RM + 'tracked value types with a registry (construction/copy/move/destruction, unique ids); conservation and exactly-once checked after every parse; leak checker in thorough',
    text='On success, failure and recovery paths, with copyable and move-only values: no library-made copy, no value consumed twice or handed over moved-from, every object destroyed exactly once.',
    note='observes only what the tracked types can see (values of trivially copyable types are not tracked)'),
+ 'C15': dict(level='exploration', design='DESIGN.md §6 C15',
+   technique=RM + 'ThreadSanitizer build plus result comparison against isolated results, byte image of parser objects before/after, shuffled single-threaded history; overlap of calls measured from timestamps',
+   text='4..32 threads share constexpr and run-time-constructed parser objects and mix parse / verbose parse / stream-less parse / write_diag_str on accepted, rejected and recovering inputs with injected yields. No race report, every result equal to the isolated one, objects bit-identical afterwards.',
+   note='held on the schedules produced; the number of overlapping call pairs is reported as evidence'),
  'C16': dict(level='exploration', design='DESIGN.md §6 C16',
    technique=RM + 'same case run under verbose on/off x {no stream, std::ostream, user stream}; results/functor logs compared; verbose text parsed into events and checked against the reference action sequence and the functor log',
    text='Outcome must not depend on verbosity or stream type; the verbose trace must be exactly the reference action sequence (states renamed through the table isomorphism), contain the non-verbose messages unchanged and name the right pending term in every Recognized line.',
    note='reference as C01'),
+ 'C18': dict(level='exploration', design='DESIGN.md §6 C18',
+   technique=RM + 'scripted custom lexer that logs every match call; the interleaved log of lexer calls, term functors and rule functors is checked against a trace specification derived from the reference driver',
+   text='Exactly one lexer call per needed term at the right position (after the same whitespace skipping) with the right source point, none at end of input or for a pending lookahead; returned index/length honoured exactly (lengths 1..4 and single lexemes of 65535..10^6 bytes); failure answers give Unexpected character.',
+   note='lexer answers in range and non-empty'),
  'C19': dict(level='exploration', design='DESIGN.md §6 C19',
    technique=RM + 'complete run-time enumeration of the finite space of helper-functor instantiations with tracked arguments under ASan+UBSan',
    text='All 1026 instantiations (arity x position (pair) x value category) are executed; identity/value of the result, copies and moves of every argument and of the container are checked. The space is finite and enumerated completely.',
